@@ -133,7 +133,60 @@ MUTANTS = [
       "    create_private_tree,\n)\n", "    create_private_tree,\n    _create_vulnerable_tree,\n)\n", "C41.6",
       edits=[(WR, "        self.putChild(b\"private\", create_private_tree(client.get_auth_token))\n",
               "        self.putChild(b\"private\", _create_vulnerable_tree())\n")]),
+    # ---- C41.8 the read-only answers themselves (added in the gap review)
+    # a writeable child's full cap would be packed in clear into the parent's read-only slot: a holder of the
+    # parent's read cap then gets a writeable child node (create_from_cap(None, <write cap>)) and its rw_uri
+    M("dirnode-readonly-uri-is-full-uri", DIRF,
+      "    def get_readonly_uri(self):\n        return self._uri.get_readonly().to_string()\n",
+      "    def get_readonly_uri(self):\n        return self._uri.to_string()\n", "C41.8"),
+    M("mutable-readonly-uri-is-get-uri", MF,
+      "    def get_readonly_uri(self):\n        return self._uri.get_readonly().to_string()\n",
+      "    def get_readonly_uri(self):\n        return self.get_uri()\n", "C41.8"),
+    M("mutable-readonly-uri-shortcut-inverted", MF,
+      "    def get_readonly_uri(self):\n        return self._uri.get_readonly().to_string()\n",
+      "    def get_readonly_uri(self):\n        if not self.is_readonly():\n            return self._uri.to_string()\n"
+      "        return self._uri.get_readonly().to_string()\n", "C41.8"),
+    M("benign-readonly-uri-shortcut-when-readonly", MF,
+      "    def get_readonly_uri(self):\n        return self._uri.get_readonly().to_string()\n",
+      "    def get_readonly_uri(self):\n        if self.is_readonly():\n            return self._uri.to_string()\n"
+      "        return self._uri.get_readonly().to_string()\n", None),
+    # read-only confused with immutable: every mutable directory claims to be writeable, so mkdir / upload below
+    # a read-only directory create objects on the grid before the backing file refuses the link
+    M("dirnode-is-readonly-means-immutable", DIRF,
+      "    def is_readonly(self):\n        return self._node.is_readonly()\n",
+      "    def is_readonly(self):\n        return not self._node.is_mutable()\n", "C41.8"),
+    M("mutable-node-is-readonly-only-some-paths", MF,
+      "    def is_readonly(self):\n        return self._uri.is_readonly()\n\n    def is_unknown(self):",
+      "    def is_readonly(self):\n        if self._writekey is None:\n            return self._uri.is_readonly()\n\n"
+      "    def is_unknown(self):", "C41.8"),
+    M("benign-readonly-uri-via-local", DIRF,
+      "    def get_readonly_uri(self):\n        return self._uri.get_readonly().to_string()\n",
+      "    def get_readonly_uri(self):\n        readcap = self._uri.get_readonly()\n        return readcap.to_string()\n",
+      None),
+    M("benign-readonly-uri-via-get-readcap", MF,
+      "    def get_readonly_uri(self):\n        return self._uri.get_readonly().to_string()\n",
+      "    def get_readonly_uri(self):\n        return self.get_readcap().to_string()\n", None),
+    M("benign-dirnode-is-readonly-from-own-cap", DIRF,
+      "    def is_readonly(self):\n        return self._node.is_readonly()\n",
+      "    def is_readonly(self):\n        readonly = self._uri.is_readonly()\n        return readonly\n", None),
+    M("benign-immutable-readonly-uri-direct", "src/allmydata/immutable/filenode.py",
+      "    def get_readonly_uri(self):\n        return self.get_uri()\n",
+      "    def get_readonly_uri(self):\n        return self.u.to_string()\n", None),
+    # ---- C41.7 further shared necessary conditions adopted from C18 (C18.2 packer, C18.6 node writekey)
+    M("packer-ro-slot-full-cap", DIRF,
+      "            ro_uri = child.get_readonly_uri()\n", "            ro_uri = child.get_uri()\n", "C41.7"),
+    # Publish's `assert self._writekey` (C41.1) would pass for every read-only node
+    M("node-writekey-falls-back-to-readkey", MF,
+      "    def get_writekey(self):\n        return self._writekey\n    def get_readkey(self):",
+      "    def get_writekey(self):\n        return self._writekey or self._readkey\n    def get_readkey(self):", "C41.7"),
+    M("benign-get-writekey-local", MF,
+      "    def get_writekey(self):\n        return self._writekey\n    def get_readkey(self):",
+      "    def get_writekey(self):\n        writekey = self._writekey\n        return writekey\n    def get_readkey(self):",
+      None),
     # ---- benign
+    M("benign-realm-answer-via-local", WP,
+      "            return (IResource, self._root, self._logout)\n",
+      "            answer = (IResource, self._root, self._logout)\n            return answer\n", None),
     M("benign-refusal-via-local", DIRF,
       "        if self.is_readonly():\n            return defer.fail(NotWriteableError())\n        deleter = Deleter(",
       "        readonly = self.is_readonly()\n        if readonly:\n            return defer.fail(NotWriteableError())\n"
